@@ -3,6 +3,7 @@ package sim
 import (
 	"fmt"
 	"regexp"
+	"runtime"
 	"runtime/debug"
 	"sort"
 	"strings"
@@ -293,6 +294,19 @@ func runBubble(t *testing.T, fn func(t *testing.T)) (leak string, harness string
 			}
 		}
 	}()
+	// Channels belong to the bubble they were made in, and the library may keep objects that hold channels in
+	// package-level pools (it does not today; a correct pool of parser scratch state is a legitimate change). Such an
+	// object must not travel from one bubble into another or out of one: synctest would end the process ("send on
+	// synctest channel from outside bubble") for something that is no defect. Two collections empty every sync.Pool
+	// (primary and victim cache), so each bubble starts and ends with empty pools; inside one bubble pooled objects are
+	// reused normally.
+	drainPools()
+	defer drainPools()
 	syncTest(t, fn)
 	return
+}
+
+func drainPools() {
+	runtime.GC()
+	runtime.GC()
 }
